@@ -357,7 +357,14 @@ func (c *cluster) reload(cli EtcdClient) {
 	c.lock.Lock()
 	// cancel the previous watches
 	close(c.done)
-	c.watchGroup.Wait()
+	watchGroup := c.watchGroup
+	c.lock.Unlock()
+
+	// wait without holding the lock, a watcher that is applying an event
+	// or reloading after a compaction needs the lock to finish.
+	watchGroup.Wait()
+
+	c.lock.Lock()
 	var keys []watchKey
 	for wk, wval := range c.watchers {
 		keys = append(keys, wk)
